@@ -94,7 +94,7 @@ fn facade(a: &FixedTickArray) -> sdk::TickArrayFacade {
     sdk::TickArrayFacade { start_tick_index: a.start_tick_index, ticks }
 }
 
-fn constants_valid(ts: u16, k: &AfConstants) -> bool {
+pub fn constants_valid(ts: u16, k: &AfConstants) -> bool {
     AdaptiveFeeConstants::validate_constants(ts, k.filter_period, k.decay_period, k.reduction_factor, k.adaptive_fee_control_factor, k.max_volatility_accumulator, k.tick_group_size, k.major_swap_threshold_ticks)
 }
 
